@@ -280,6 +280,8 @@ class Parser:
     def __init__(self, text: str):
         self.lines = text.split("\n")
         self.i = 0
+        self.steps = 0
+        self.n0 = len(self.lines)
 
     # --- line level helpers
     def peek(self) -> Optional[str]:
@@ -295,6 +297,9 @@ class Parser:
         l = self.peek()
         assert l is not None
         self.i += 1
+        self.steps += 1
+        if self.steps > 50 * (self.n0 + 20):  # lines are re-inserted in a few places: never loop for ever
+            raise RuntimeError("parser made no progress")
         return l
 
     # --- tests
@@ -474,7 +479,10 @@ class Parser:
                             m = re.match(r"^([A-Za-z_][A-Za-z0-9_]*)='([^']*)'$", l.strip())
                             this_assign = (m.group(1), m.group(2)) if m else None
                         if trailing:
-                            self.lines.insert(self.i, ";;")
+                            if ";;" in terminators:
+                                self.lines.insert(self.i, ";;")
+                            else:
+                                stmts.append(unknown(";;"))
             prev_assign = this_assign
 
     def parse_heredoc(self, l: str, toks: List[Any], k: int) -> Node:
